@@ -172,13 +172,18 @@ struct no_two_arg
 //   A2 basic(t1, t2)                -> d(gen)             (if mk2 is given)
 //   B  make_variate(ref, make_basic(param))   -> v()
 //   C  variate(ref, param_type)     -> v()
+//   P1 basic(basic(param).param())  -> d(gen)             (getter round trip)
+//   P2 basic(P::convert_to(std dist)) -> d(gen)
+//   W1 basic(q) -> d(gen, param)                          (per-call parameters, q = another parameter set)
+//   W2 basic(q) -> d(gen, param) interleaved with d(gen)
 // Each with its own freshly seeded fcppt generator.  After DRAWS draws the generator
 // itself must be in the same state as the std engine (next raw number equal): a variate
 // that drew from a copy of the generator would show here.
 template <class E, class P, class StdDist, class Mk2>
 void lockstep(std::string const &nm, P const &p, StdDist const &rd0, u64 const seed, bool const bounded,
               typename StdDist::result_type const lo, typename StdDist::result_type const hi, Mk2 const &mk2,
-              int const reset_at = -1)
+              P const &q, StdDist const &rq0, typename StdDist::result_type const qlo,
+              typename StdDist::result_type const qhi, int const reset_at = -1)
 {
   using R = typename P::result_type;
   using base = typename StdDist::result_type;
@@ -233,6 +238,14 @@ void lockstep(std::string const &nm, P const &p, StdDist const &rd0, u64 const s
               show(rt<R>::unwrap(d.max())).c_str(), show(rd0.min()).c_str(), show(rd0.max()).c_str());
     VRT_CHECK(d.distribution().param() == rd0.param(), nm + ":wrapped_param",
               "wrapped distribution does not carry the requested parameters");
+    // param() getter: the parameters read back are the ones put in (observed through
+    // convert_from(), whose correctness is what the wrapped_param check above establishes)
+    static_assert(std::is_same_v<decltype(d2.param()), P>, "param() returns the parameters class");
+    VRT_CHECK(d2.param().convert_from() == rd0.param(), nm + ":param_getter",
+              "param() of a fresh distribution does not return the parameters it was built from");
+    // convert_to: std distribution -> parameters class
+    VRT_CHECK(P::convert_to(rd0).convert_from() == rd0.param(), nm + ":convert_to",
+              "convert_to(std distribution) does not carry the distribution's parameters");
     run(
         "basic(param)",
         [&](int const i) {
@@ -264,6 +277,64 @@ void lockstep(std::string const &nm, P const &p, StdDist const &rd0, u64 const s
     run(
         "variate(gen,param)", [&](int) { return v(); }, g);
   }
+  // parameters that went through the "to" direction must describe the same distribution
+  {
+    G g(fc_seed<E>(seed));
+    D const src(p);
+    D d(src.param());
+    run(
+        "basic(basic(param).param())", [&](int) { return d(g); }, g);
+  }
+  {
+    G g(fc_seed<E>(seed));
+    D d(P::convert_to(rd0));
+    run(
+        "basic(convert_to(std distribution))", [&](int) { return d(g); }, g);
+  }
+  // operator()(rng, param): a distribution that *stores* the other parameter set q draws with
+  // the per-call parameters p -- reference: std_dist(q)(engine, std_param(p)).  Once for every
+  // draw, once interleaved with plain draws (which must still use q).  Afterwards the stored
+  // parameters, min() and max() are still those of q, and param(set) + param() round-trips.
+  auto with_param = [&](char const *path, bool const interleave) {
+    typename E::sd ref2 = sd_engine<E>(seed);
+    StdDist rq(rq0);
+    G g(fc_seed<E>(seed));
+    D d(q);
+    for (int i = 0; i < DRAWS; ++i)
+    {
+      bool const per_call = !interleave || (i * 5 + i / 3) % 3 != 0;
+      base const w = per_call ? rq(ref2, rd0.param()) : rq(ref2);
+      R const x = per_call ? d(g, p) : d(g);
+      base const v = rt<R>::unwrap(x);
+      base const l = per_call ? lo : qlo, h = per_call ? hi : qhi;
+      if (bounded && !(l <= v && v <= h))
+      {
+        vrt::fail(nm + ":draw_with_param:out_of_bounds",
+                  vrt::fmt("%s draw %d (%s): %s outside [%s,%s]", path, i, per_call ? "per-call parameters" : "stored parameters",
+                           show(v).c_str(), show(l).c_str(), show(h).c_str()));
+        return;
+      }
+      if (!same(v, w))
+      {
+        vrt::fail(nm + ":draw_with_param:sequence",
+                  vrt::fmt("%s draw %d (%s): got %s, std gives %s", path, i, per_call ? "per-call parameters" : "stored parameters",
+                           show(v).c_str(), show(w).c_str()));
+        return;
+      }
+    }
+    VRT_CHECK(d.param().convert_from() == rq0.param() && d.distribution().param() == rq0.param() &&
+                  same(rt<R>::unwrap(d.min()), rq0.min()) && same(rt<R>::unwrap(d.max()), rq0.max()),
+              nm + ":draw_with_param:stored_param_changed", "%s: stored parameters differ after per-call draws", path);
+    auto const raw = g();
+    auto const raw_want = ref2();
+    if (raw != raw_want)
+      vrt::fail(nm + ":draw_with_param:generator_state", vrt::fmt("%s: generator state differs after %d draws", path, DRAWS));
+    d.param(p);
+    VRT_CHECK(d.param().convert_from() == rd0.param(), nm + ":param_getter_after_set",
+              "%s: param() after param(set) does not return the parameters that were set", path);
+  };
+  with_param("d(q)(gen,p) every draw", false);
+  with_param("d(q)(gen,p) interleaved with d(gen)", true);
 }
 
 // "reach both ends": over the whole seed set (seeds in order, DRAWS draws each, stops
@@ -314,6 +385,8 @@ void uniform_int_family(std::string const &rname,
     if (vrt::out_of_time())
       return;
     base const a = ivs[k].first, b = ivs[k].second;
+    // the "other" parameter set stored in the distribution while drawing with per-call parameters
+    base const qa = ivs[(k + 7) % ivs.size()].first, qb = ivs[(k + 7) % ivs.size()].second;
     for (u64 const seed : seeds())
     {
       if (!announce(fn, a, b, seed))
@@ -321,9 +394,13 @@ void uniform_int_family(std::string const &rname,
       vrt::nontrivial(a < b);
       vrt::maybe_sample();
       P const p{typename P::min(rt<R>::wrap(a)), typename P::max(rt<R>::wrap(b))};
-      lockstep<E>(nm, p, std::uniform_int_distribution<base>(a, b), seed, true, a, b, [&] {
-        return fcppt::random::distribution::basic<P>(typename P::min(rt<R>::wrap(a)), typename P::max(rt<R>::wrap(b)));
-      });
+      P const q{typename P::min(rt<R>::wrap(qa)), typename P::max(rt<R>::wrap(qb))};
+      lockstep<E>(
+          nm, p, std::uniform_int_distribution<base>(a, b), seed, true, a, b,
+          [&] {
+            return fcppt::random::distribution::basic<P>(typename P::min(rt<R>::wrap(a)), typename P::max(rt<R>::wrap(b)));
+          },
+          q, std::uniform_int_distribution<base>(qa, qb), qa, qb);
     }
     if (static_cast<i128>(b) - static_cast<i128>(a) <= 16)
     {
